@@ -67,9 +67,9 @@ func (r *Reader) ReadUe() (res uint32) {
 func (r *Reader) ReadSe() (res int32) {
 	ui32 := r.ReadUe()
 	if ui32&0x01 != 0 {
-		res = (int32(res) + 1) / 2
+		res = int32((uint64(ui32) + 1) / 2)
 	} else {
-		res = -int32(res) / 2
+		res = -int32(ui32 / 2)
 	}
 	return
 }
